@@ -26,7 +26,7 @@ def write_evidence(mod, prop, tier, seed, per_sub, wall, n_viol, n_known):
         cov["states"] = sum(p["states"] for p in per_sub)
         cov["transitions"] = sum(p["transitions"] for p in per_sub)
         cov["traces_validated_against_impl"] = sum(
-            p["executed"] for p in per_sub if p["mode"] in ("N", "B") and p["kind"] != "free-running")
+            (p["transitions"] if p["kind"] == "compiled-traces" else p["executed"]) for p in per_sub if p["mode"] in ("N", "B", "H"))
         cov["explanation"] = getattr(mod, "MC_NOTE", "")
     ev = {"property_id": prop, "tier": tier, "seed": seed, "level": level, "coverage": cov,
           "assumptions": list(getattr(mod, "ASSUMPTIONS", [])), "wall_s": round(wall, 2),
